@@ -184,6 +184,11 @@ struct NonConstArrayLengthError : public Error {
     Error(location, (boost::format("array %s length is not constant") % name).str()) {}
 };
 
+struct NonConstValError : public Error {
+  NonConstValError(Location location, std::string name) :
+    Error(location, (boost::format("val %s is not constant") % name).str()) {}
+};
+
 struct InvalidSyscallError : public Error {
   InvalidSyscallError(Location location, int sysCallId) :
     Error(location, (boost::format("invalid syscall: %d") % sysCallId).str()) {}
@@ -789,7 +794,7 @@ class ValDecl : public Decl {
   int exprValue;
 public:
   ValDecl(Location location, std::string name, std::unique_ptr<Expr> expr) :
-      Decl(location, name), expr(std::move(expr)) {}
+      Decl(location, name), expr(std::move(expr)), exprValue(0) {}
   virtual void accept(AstVisitor *visitor) override {
     visitor->visitPre(*this);
     expr->accept(visitor);
@@ -1814,9 +1819,10 @@ public:
   ConstProp(SymbolTable &symbolTable) :
     AstVisitor(true, true, true), symbolTable(symbolTable) {}
   void visitPost(ValDecl &decl) {
-    if (decl.getExpr()->isConst()) {
-      decl.setValue(decl.getExpr()->getValue());
+    if (!decl.getExpr()->isConst()) {
+      throw NonConstValError(decl.getLocation(), decl.getName());
     }
+    decl.setValue(decl.getExpr()->getValue());
   }
   void visitPost(BinaryOpExpr &expr) {
     auto &LHS = expr.getLHS();
